@@ -119,11 +119,14 @@ def body(ctx):
         return c
     lanes.validate(ctx, "T_Loops.tla", events, "c14", plan_lines=plan, corrupt=corrupt)
     ctx.cov["evaluations"] = max(ctx.cov["evaluations"], nraw)
+    # non-trivial = a data-dependent loop actually iterated (some tick counter > 0); distinct = distinct (function, type, width, tick vector)
+    ctx.cov["distinct_nontrivial"] = len({(e["op"], e["t"], e["w"], tuple(e["ticks"])) for e in events if e["k"] == "lp" and any(e["ticks"])})
+    ctx.cov["distinct_observations"] = len(events)
     return dict(exhaustive=False,
                 rule="every unary elementary function (+ pow/atan2/hypot/fmod/remainder/fdim, ipow, sincos) for float and double on 22 architectures + scalar overloads, arguments from the "
                      "class lattice (every exponent stride x 6 mantissas x 2 signs), special values, gamma case-analysis neighbourhoods and huge values, broadcast and next to companions of other "
                      "classes, each row under a 0.5 s watchdog with the XSIMD_VERIF loop-tick hook; TLC checks every observed tick vector against bounds independent of the argument and that no call "
-                     "timed out or faulted; the loop skeletons are model-checked in K_Gamma (bound + termination; as-shipped variant must fail); distinct_nontrivial = distinct (function, type, width, tick vector) observations")
+                     "timed out or faulted; the loop skeletons are model-checked in K_Gamma (bound + termination; as-shipped variant must fail); distinct_nontrivial = distinct (function, type, width, tick vector) observations in which an instrumented loop iterated at least once")
 
 
 if __name__ == "__main__":
